@@ -79,6 +79,28 @@ Theorem C15_cached_rejects_late_dependencies : exists d : dag, wf_dag d /\
 Proof. exact cached_rejects_late. Qed.
 Print Assumptions C15_cached_rejects_late_dependencies.
 
+(* which store the cached command reads: [cached_call_dirs d file jf arg] reads the store the tasks use
+   ([jf]) when it builds the cache and the store --jugdir names ([arg]) afterwards (update mode does
+   not load the jugfile).  When the jugfile does not select its store the two coincide and this is
+   the [cached_call] of (c) ... *)
+Theorem C15_cached_same_store : forall (d : dag) (file : option cache_db) (x : store * locks),
+  cached_call_dirs d file x x = cached_call d file (fst x) (snd x).
+Proof. exact cached_dirs_same. Qed.
+Print Assumptions C15_cached_same_store.
+
+(* ... and when it does (jug.set_jugdir in the jugfile, --jugdir / the default naming another
+   location) (c) is FALSE of the faithful model and of the code: KNOWN FINDING D27 (classifier
+   cache_ignores_jugfile_store).  u = a(1); v = b(u); nothing stored at the first call, both results
+   stored at the second: the cached command still prints ready / waiting, the plain one complete. *)
+Theorem C15_cached_refuted_jugfile_store : exists (d : dag) (s1 s2 sa : store) (lk : locks),
+  ordered_dag d /\ monotone (fun _ => false) [(s1, lk); (s2, lk)] /\
+  exists ev1 db1 ev2 db2,
+    cached_call_dirs d None (s1, lk) (sa, lk) = Some (ev1, db1) /\ ev1 = status_events d s1 lk /\
+    cached_call_dirs d (Some db1) (s2, lk) (sa, lk) = Some (ev2, db2) /\
+    map snd ev2 = [Ready; Waiting] /\ map snd (status_events d s2 lk) = [Complete; Complete].
+Proof. exact cached_ignores_jugfile_store. Qed.
+Print Assumptions C15_cached_refuted_jugfile_store.
+
 (* (d) `jug check` exits 0 iff every task is complete, 1 otherwise - on every store state *)
 Theorem C15_check : forall (d : dag) (st : store),
   (check d st = 0 <-> forall t, In t (tids d) -> st t = true) /\
